@@ -19,7 +19,7 @@ static inline void make_targets(const Chain &c, const GT &g, SeekTargets &st) {
   for (size_t i = 0; i < c.pages.size(); i++) {
     const PageInfo &p = c.pages[i];
     st.bytes.push_back(p.offset); st.bytes.push_back(p.offset + p.len / 2); st.bytes.push_back(p.offset + p.len - 1);
-    if (p.last_completed_pkt >= 3 && p.granulepos >= 0) { int64_t gp = g.start[p.link] + std::min<int64_t>(p.granulepos, g.len[p.link]); st.page_gp[p.link].push_back(gp); st.samples.push_back(gp); }
+    if (p.last_completed_pkt >= 3 && p.granulepos >= 0) { int64_t gp = g.start[p.link] + std::min<int64_t>(std::max<int64_t>(p.granulepos - c.links[p.link].gp_offset, 0), g.len[p.link]); st.page_gp[p.link].push_back(gp); st.samples.push_back(gp); }
   }
   st.bytes.push_back(0); st.bytes.push_back((int64_t)c.bytes.size());
   // packet boundaries: cumulative sample counts (each packet completes (prev+cur)/4 samples)
@@ -139,7 +139,7 @@ struct SeekRun {
     // While D20 is open the trigger region is excluded by construction: the lower bound moves two boundaries back (counted).
     if (kf_open("D20")) {
       const PageInfo *best = nullptr;
-      for (auto &pg : c.pages) if (pg.link == l && pg.last_completed_pkt >= 3 && pg.granulepos >= 0 && g.start[l] + std::min<int64_t>(pg.granulepos, g.len[l]) < p) best = &pg;
+      for (auto &pg : c.pages) if (pg.link == l && pg.last_completed_pkt >= 3 && pg.granulepos >= 0 && g.start[l] + std::min<int64_t>(std::max<int64_t>(pg.granulepos - c.links[l].gp_offset, 0), g.len[l]) < p) best = &pg;
       if (best && (best->flags & 1) && best->last_completed_pkt == best->first_pkt) {
         int64_t b1 = g.start[l], b2 = g.start[l];   // b1: largest boundary < lo, b2: largest boundary < b1
         for (int64_t gp : st.page_gp[l]) if (gp < lo && gp > b1) b1 = gp;
@@ -202,8 +202,37 @@ struct SeekRun {
     return true;
   }
 
+  // Exhaustive arm: on a small chain, from several prior states, a sample-accurate seek to EVERY position 0..L and a raw seek to EVERY
+  // byte offset, each followed by a verified read (C07: audio at the reported position; C08: landing exactly at the target).
+  bool sweep() {
+    ChainOpts o; o.maxlinks = 3; o.maxN = 1200; o.comments = false; o.vgen_pct = 60; o.vgen_64_pct = 40; o.maxch = 3;
+    if (!gen_chain(t, r, o, c, g, meta, desc)) return false;
+    if (g.total > 6000 || c.bytes.size() > 60000) { r.label("sweep skipped: chain too large"); return true; }
+    make_targets(c, g, st); tstart.clear(); { double acc = 0; for (size_t l = 0; l < c.links.size(); l++) { tstart.push_back(acc); acc += (double)g.len[l] / (double)c.links[l].rate; } }
+    if (!do_open()) return false;
+    int prior = (int)t.below(4); bool byraw = t.chance(1, 3); desc += sfmt(" SWEEP prior=%d %s", prior, byraw ? "raw" : "pcm");
+    int64_t limit = byraw ? (int64_t)c.bytes.size() : g.total;
+    for (int64_t p = 0; p <= limit; p++) {
+      hist.clear(); bool eof;
+      // re-establish the prior state before every target
+      if (prior == 1) { if (ov_pcm_seek(&vf, 0)) return r.fail("ov_pcm_seek(0) failed [%s]", desc.c_str()); pos = 0; last_was_seek = false; if (!do_read(100, eof)) return false; }
+      else if (prior == 2) { if (ov_pcm_seek(&vf, g.total)) return r.fail("ov_pcm_seek(L) failed [%s]", desc.c_str()); pos = g.total; last_was_seek = false; if (!do_read(64, eof)) return false; }
+      else if (prior == 3) { int64_t b = (int64_t)c.bytes.size() / 2; if (ov_raw_seek(&vf, b)) return r.fail("ov_raw_seek(mid) failed [%s]", desc.c_str()); pos = ov_pcm_tell(&vf); last_was_seek = false; }
+      calls = 2;
+      if (byraw) { hist += sfmt("raw_seek(%lld)", (long long)p); int ret = ov_raw_seek(&vf, p); if (!after_seek("ov_raw_seek", ret, p, true, 0, g.total)) return false; }
+      else { hist += sfmt("pcm_seek(%lld)", (long long)p); int ret = ov_pcm_seek(&vf, p); if (!after_seek("ov_pcm_seek", ret, p, false, p, p)) return false; }
+      if (!open) continue;
+      if (!do_read(48, eof)) return false;
+    }
+    r.label(byraw ? "exhaustive raw-seek sweep over every byte offset" : "exhaustive sample-seek sweep over every position"); r.label(sfmt("sweep prior state %d", prior));
+    r.metric_max(byraw ? "byte offsets swept in one case" : "sample positions swept in one case", (double)limit + 1);
+    r.nontriv(fnv1a(desc.data(), desc.size())); if (r.want_sample()) r.sample(desc + sfmt(" targets=%lld", (long long)limit + 1));
+    return true;
+  }
+
   bool run() {
-    ChainOpts o; o.maxlinks = 4; o.maxN = 40000; o.comments = false; o.vgen_pct = 35;
+    if (mode != 20 && g_tape_gen >= 3) { const char *tier = getenv("VERIF_TIER_RUN"); int den = tier && !strcmp(tier, "thorough") ? 6 : 150; if (t.chance(1, (uint32_t)den)) return sweep(); }
+    ChainOpts o; o.maxlinks = 4; o.maxN = 40000; o.comments = false; o.vgen_pct = 35; o.gp_offset_pct = 8;
     if (mode == 20) { o.half = true; o.even_interior = !t.chance(1, 6); o.maxlinks = 3; o.maxN = 30000; o.vgen_64_pct = 10; o.vgen_min_bslog = 7; }
     if (!gen_chain(t, r, o, c, g, meta, desc)) return false;
     make_targets(c, g, st);
